@@ -185,6 +185,18 @@ def enum_structural():
         for a, b, c in itertools.product(range(0, 5), repeat=3):
             yield ('concat3',), {'op': 'concat', 'how': 'function', 'ins': [_src(kind, 1, a), _src(kind, 2, b),
                                                                             _src(kind, 3, c)]}
+        # many parts (a walk over the parts vs. any bisecting shortcut) and the same object as several parts
+        for k in (8, 9, 10, 13, 17):
+            for shift in (0, 1, 2):
+                yield ('concat_many',), {'op': 'concat', 'how': 'function',
+                                         'ins': [_src(kind, i + 1, (i * 3 + shift) % 4) for i in range(k)]}
+        for a, b in itertools.product(range(0, 4), repeat=2):
+            A, B_ = _src(kind, 1, a), _src(kind, 2, b)
+            for ins in ([A, B_, A], [A, A], [A, B_, A, B_], [B_, A, A]):
+                yield ('concat_alias',), {'op': 'concat', 'how': 'method', 'share': True, 'ins': ins}
+        for n in (1, 2, 3):
+            for r in (8, 9, 16, 17):
+                yield ('tile_many',), {'op': 'tile', 'r': r, 'in': _src(kind, 1, n)}
         bounds = [None] + list(range(-6, 7))
         for a in bounds:
             for b in bounds:
